@@ -302,7 +302,7 @@ prop("C05",
 )
 
 prop("C10",
-     coq=_SESS_COQ + ["props/C10.v"],
+     coq=_SESS_COQ + ["gen/Extracted.v", "model/LFShape.v", "model/ReaderKick.v", "proofs/ReaderKickProofs.v", "props/C10.v", "refute/C10.v"],
      n={"quick": 300, "thorough": 5000, "search": 600},
      shrink_fields=["ops"], shrink_min=1,
      rule="histories over two client ids with pre-emption on (65%) or off: sequential CONNECTs on identifiers in use (take-over / refusal), up to two RACES per history of 2-3 connections sending CONNECT for one identifier at the same "
@@ -312,7 +312,9 @@ prop("C10",
      level_text="Theorems (coq/props/C10.v): every CONNECT is answered by exactly one CONNACK in every state; with pre-emption the old connection is closed FIRST, then its will (if due), then the new one is acknowledged and served, the identifier's slot "
                 "holds the new connection and no other identifier changes; without pre-emption the new connection is refused (non-zero code) and NOTHING changes; in every reachable state a message is only ever handed to an attached connection. "
                 "The model has one attachment slot per identifier by construction: that the real manager (container lock, removable/removed flags, timers) behaves like it under concurrent CONNECTs is checked as linearizability of observed races against the model. "
-                "Partial: goroutine interleavings inside the manager are sampled by those races, not enumerated; 'within bounded time' is a 5 s watchdog.",
+                "'Within bounded time' has one proved piece: model/ReaderKick.v (the reader's loop against the connection's close sequence against the client's packets, one access per step) - C10_reader_never_waits_for_the_client_after_close: from any point of the loop "
+                "and under every interleaving the reader is not left waiting for the client once the close sequence has set its deadline, and is gone three steps later; C10_reader_shape: the translator re-reads the order of the accesses in reader.routine and onConnectionCloseStage2; "
+                "the loop as it was is refuted (refute/C10.v). Special kinds: a stalled, a slow and a BUSY client taken over. Partial: goroutine interleavings inside the manager are sampled by the races, not enumerated; the rest of 'within bounded time' is a 5 s watchdog.",
      level_note=_SESS_NOTE, trusted_base=_SESS_TB + ["race steps: simultaneity is best effort (goroutines released by one channel close)"],
      assumptions=["connection numbers are fresh per CONNECT", "a CONNECT counts as unanswered after 5 s"],
 )
